@@ -40,6 +40,8 @@ pub struct Shared {
     pub outcomes: Mutex<BTreeMap<String, u64>>,
     pub depth_hist: Mutex<BTreeMap<u8, u64>>,
     pub max_depth_seen: AtomicU64,
+    /// Every executed history (only filled when asked for: small enumerations whose histories are replayed under Miri).
+    pub all_histories: Mutex<Option<Vec<Vec<Op>>>>,
 }
 
 impl Shared {
@@ -62,6 +64,7 @@ impl Shared {
             outcomes: Mutex::new(BTreeMap::new()),
             depth_hist: Mutex::new(BTreeMap::new()),
             max_depth_seen: AtomicU64::new(0),
+            all_histories: Mutex::new(None),
         }
     }
 
@@ -110,6 +113,9 @@ impl Eq for St {}
 pub fn execute(sh: &Shared, hist: &[Op]) -> St {
     crate::journal::write(hist);
     sh.executions.fetch_add(1, Ordering::Relaxed);
+    if let Some(v) = sh.all_histories.lock().unwrap().as_mut() {
+        v.push(hist.to_vec());
+    }
     let depth = hist.len() as u8;
     let mut key = 0u128;
     let mut acts: Vec<Op> = Vec::new();
